@@ -75,6 +75,9 @@ TieEqual    == pc = "done" => \A i, j \in 1..n : rank[i] = rank[j] => Eq(QOp(i),
 Thresholds == {<<1, 1>>, <<1, 2>>, <<1, 4>>, <<101, 10000>>, <<3701, 10000>>, <<5503, 10000>>}
 LabelRule   == pc = "done" => \A i \in 1..n : \A thr \in Thresholds :
                   LabelOf(tgt[i], QOp(i), thr) = LabelDef(rank, tgt, n, i, thr)
+\* the one-pass count of accepted targets (TdcDef!AcceptedCount, used by the acceptors on long vectors) is the definition
+CountEqualsDef == pc = "sort" => \A thr \in Thresholds :
+                     AcceptedCount(rank, tgt, n, thr) = Cardinality({i \in 1..n : tgt[i] /\ Leq(QDef(rank, tgt, n, i), thr)})
 \* behaviour generation: one case per initial state
 EmitCase == pc = "sort" => PrintT(<<"CASE", n, rank, tgt>>)
 GenOnly == pc = "sort"   \* generation configs do not explore beyond the initial states
